@@ -399,7 +399,9 @@ func (txn *Txn[T]) Prefix(key index.Key) *Iterator[T] {
 		}
 		node = node.children[getBitAt(data, node.prefixLen())]
 	}
-	if node == nil {
+	if node == nil || matchLen < prefixLen {
+		// Nothing in the trie is covered by the search prefix: either we ran
+		// out of nodes or the node's key diverges from the search prefix.
 		return nil
 	}
 	return &Iterator[T]{start: node}
